@@ -41,6 +41,21 @@ def main(tier, seed):
         ids = rng.sample(range(1, 256, 2), n)
         props = [(i, rng.choice(ABS), rng.choice(ts_lists)) for i in ids]
         cases.append((served, ts, rng.choice([0, 16384, 65536]), props, rng.choice([0, 16384, 131072])))
+    # long lists of transfer syntaxes: a requestor that prefers compressed encodings lists every syntax it knows and the
+    # mandatory default last; the only supported one stands at position n (n around every power of two up to 255)
+    filler = ['1.2.840.10008.1.2.4.%d' % k for k in range(50, 310)]
+    for n in [4, 5, 8, 9, 16, 17, 31, 32, 33, 34, 36, 54, 63, 64, 65, 100, 127, 128, 129, 200, 255]:
+        for where in ('last', 'middle', 'none'):
+            tl = filler[:n - 1]
+            if where == 'last':
+                tl = tl + [TS[0]]
+            elif where == 'middle':
+                tl = tl[:n // 2] + [TS[1]] + tl[n // 2:]
+            else:
+                tl = tl + [filler[-1]]
+            if tier == 'quick' and where != 'last' and n not in (33, 65, 129, 255):
+                continue
+            cases.append(([ABS[0], ABS[1]], [TS[0], TS[1]], 16384, [(1, ABS[0], tl), (3, ABS[1], list(reversed(tl)))], 16384))
     obs = [nd.observe_accept(*c, variant=(k % 7 if k % 3 == 0 else 0)) for k, c in enumerate(cases)]
     run = common.CoqRun('C09')
     failing, broken, n_obl, n_ok = common.run_sharded(run, 'Acc', nd.IMPORTS, 'acase', [t for t, _h in obs],
@@ -51,7 +66,8 @@ def main(tier, seed):
     cov['distinct_nontrivial'] = len(set(repr((h['served'], h['ts'], h['proposals'])) for _t, h in obs if h['proposals']))
     cov['rule'] = ('exhaustive: 1 context x {served, unserved} x every ordered list of 1..3 transfer syntaxes out of 4 x every '
                    'subset of 3 served classes x every subset of 4 supported syntaxes (lists sampled in quick); 0..3 contexts '
-                   'x all served/unserved patterns with sampled configurations; seeded requests of 4..40 contexts; '
+                   'x all served/unserved patterns with sampled configurations; seeded requests of 4..40 contexts; lists of 4..255 '
+                   'transfer syntaxes with the supported one last / in the middle / absent; '
                    'non-trivial = at least one proposed context')
     import collections
     cov['distribution'] = dict(contexts=dict(collections.Counter(str(min(len(h['proposals']), 5)) for _t, h in obs)),
